@@ -13,7 +13,7 @@ from vf.zoo import unit, vec
 
 ID = "C06"
 LEVEL = "exploration"
-BUDGET = {"quick": 1920, "thorough": 19200}
+BUDGET = {"quick": 4800, "thorough": 48000}
 MIN_NONTRIVIAL = {"quick": 40, "thorough": 400}
 RULE = (
     "Hypothesis draws integrator x compatible system x metric type x state and a relative step size r in "
